@@ -27,7 +27,13 @@ def hparse(api: ParseAPI, pub_prv: str, key_type: str, s: str) -> Any:
         return None
     parse_method_name = "%s_deserialize" % key_type
     parse_method = getattr(api._network.keys, parse_method_name, lambda *args: None)
-    return parse_method(data)
+    if len(data) != 78:
+        return None
+    try:
+        return parse_method(data)
+    except ValueError:
+        # key material out of range or not on the curve
+        return None
 
 
 class ParseAPI(object):
